@@ -68,7 +68,10 @@ class Interp:
             if k == "adt":
                 return v[4][e[1]] if e[1] < len(v[4]) else UNK
             if k == "res":
-                return ("res", v[1], v[2], v[3], v[4] + (e[1],)) if len(v) > 4 else ("res", v[1], v[2], v[3], (e[1],))
+                step = e[2] if e[2] else e[1]
+                return ("res", v[1], v[2], v[3], v[4] + (step,)) if len(v) > 4 else ("res", v[1], v[2], v[3], (step,))
+            if k == "closure":
+                return v[2][e[1]] if e[1] < len(v[2]) else UNK
             return UNK
         if e[0] == "d":
             if k == "sym":
@@ -147,7 +150,7 @@ class Interp:
                 d = self.oracle.res_discriminant(v, rv[2])
                 if d is not None:
                     return I(d)
-            return ("disc_of", v)
+            return ("disc_of", v, rv[2])
         if k == "agg":
             kd = rv[1]
             vals = [self.operand(st, o) for o in rv[2]]
@@ -263,3 +266,97 @@ def variant_of(v):
     if v[0] == "res":
         return "res<" + v[1].split("::")[-1] + ">"
     return v[0]
+
+
+class Fork(Exception):
+    pass
+
+
+def explore(fn, make_oracle, init, max_paths=256, max_steps=4000, visit_bound=3):
+    """Enumerate the paths of a (small) body: like Interp.run, but an undecided switch forks
+    into every successor instead of failing. Yields (return value, trace, decisions) where
+    decisions is the list of (block, scrutinee value, taken value|'else') made at forks.
+    Loops are cut after `visit_bound` visits of a block on one path."""
+    results = []
+    work = [[]]     # each item: list of forced choices (taken values) at successive forks
+    while work and len(results) < max_paths:
+        forced = work.pop()
+        it = Interp(fn, make_oracle(), max_steps)
+        st = dict(init)
+        b = 0
+        decisions = []
+        fi = 0
+        visits = {}
+        steps = 0
+        dead = False
+        while True:
+            steps += 1
+            visits[b] = visits.get(b, 0) + 1
+            if steps > max_steps or visits[b] > visit_bound:
+                dead = True
+                break
+            it.path.append(b)
+            blk = fn.blocks[b]
+            for s in blk["st"]:
+                if s[0] == "a":
+                    it.write_place(st, s[1], it.rvalue(st, s[2], b))
+            t = blk["t"]
+            k = t[0]
+            if k == "go":
+                b = t[1]
+            elif k == "ret":
+                results.append((st.get(0, UNK), it.trace, decisions))
+                break
+            elif k == "sw":
+                v = it.operand(st, t[1])
+                if v[0] != "int" and hasattr(it.oracle, "switch_value"):
+                    sv = it.oracle.switch_value(v, it)
+                    if sv is not None:
+                        v = I(sv)
+                if v[0] == "int":
+                    nxt = t[3]
+                    for val, tgt in t[2]:
+                        if val == v[1]:
+                            nxt = tgt
+                            break
+                    b = nxt
+                else:
+                    options = [(val, tgt) for val, tgt in t[2]] + [("else", t[3])]
+                    if fi < len(forced):
+                        choice = forced[fi]
+                    else:
+                        choice = 0
+                        for j in range(1, len(options)):
+                            work.append(forced[:fi] + [j])
+                    fi += 1
+                    if fi > len(forced):
+                        forced = forced + [choice]
+                    val, tgt = options[choice]
+                    decisions.append((b, v, val))
+                    b = tgt
+            elif k == "call":
+                cal = _callee(t)
+                args = [it.operand(st, o) for o in t[2]]
+                res = None
+                if it.oracle is not None and hasattr(it.oracle, "call"):
+                    res = it.oracle.call(cal, args, t, it)
+                if res is None:
+                    it._rid += 1
+                    res = ("res", cal, args, it._rid)
+                it.trace.append((cal, args, t[1].get("l"), res, b))
+                it.write_place(st, t[3], res)
+                if t[4] is None:
+                    results.append((("diverge", cal), it.trace, decisions))
+                    break
+                b = t[4]
+            elif k == "as":
+                b = t[4]
+            elif k == "drop":
+                b = t[2]
+            elif k == "unr":
+                results.append((("unreachable",), it.trace, decisions))
+                break
+            else:
+                dead = True
+                break
+    return results
